@@ -50,6 +50,17 @@ func Dial(addr string, local net.Addr, cfgTweak func(*tls.Config)) (*Conn, error
 	return c, nil
 }
 
+// Wrap starts an HTTP/2 client on an established connection (any TLS client
+// that negotiated h2) and sends the client preface (without SETTINGS).
+func Wrap(conn net.Conn) (*Conn, error) {
+	c := &Conn{Peer: h2peer.New(conn, nil), Next: 1}
+	if err := c.Peer.WriteRaw([]byte(h2peer.ClientPreface)); err != nil {
+		conn.Close()
+		return nil, err
+	}
+	return c, nil
+}
+
 func (c *Conn) Close() { c.Peer.Close() }
 
 // History returns a copy of the frames written so far (fingerprint-relevant view).
